@@ -65,6 +65,11 @@ type Tunnel struct {
 
 	// RPC-initiating end
 	Chan grpctunnel.TunnelChannel
+	// forward: what NewChannel returned (Start may be called on it again), and
+	// a second channel started from it after Chan, if the run wants one
+	Pending       grpctunnel.PendingChannel
+	Sibling       grpctunnel.TunnelChannel
+	SiblingCancel context.CancelFunc
 	// the handler of the network server (forward: serves RPCs; reverse: owns the registry)
 	Handler *grpctunnel.TunnelServiceHandler
 	// reverse: the server running on the network client
@@ -205,7 +210,8 @@ func (w *World) openForward(t *Tunnel, outer *Tunnel) error {
 	stub := w.stubFor(t, outer, h)
 	ctx := w.openCtx(t)
 	simrt.Emit(simrt.Event{Kind: EvTunnel, S: "chan-start", A: int64(t.Idx)})
-	ch, err := grpctunnel.NewChannel(stub, clientOpts(t.Cfg.FC)...).Start(ctx)
+	t.Pending = grpctunnel.NewChannel(stub, clientOpts(t.Cfg.FC)...)
+	ch, err := t.Pending.Start(ctx)
 	if err != nil {
 		simrt.Emit(simrt.Event{Kind: EvTunnel, S: "chan-start-failed", A: int64(t.Idx), S2: err.Error()})
 		return err
